@@ -368,6 +368,11 @@ func runC19(c *Ctx) {
 						continue
 					}
 				}
+				// the snapshot passed as a whole: its Index field
+				if vFieldLoad("SnapshotInfoV3.Index", nil)(l) {
+					sawParam = true
+					continue
+				}
 				if b, isB := l.(*ssa.BinOp); isB && b.Op == token.ADD && vConstInt(1)(b.Y) {
 					continue
 				}
@@ -384,10 +389,22 @@ func runC19(c *Ctx) {
 	}
 	if fn := c.fn("R1-segment-contiguity", "(*ls.Replica).RestoreV3"); fn != nil {
 		for _, call := range callsTo(fn, nameIs("(*ls.Replica).applyWALSegmentsV3")) {
+			// the chosen snapshot's index and generation are handed over: as two arguments,
+			// or as the snapshot value itself
+			chosen := vResult(nameIs("ls.findBestSnapshotV3"), 0)
+			whole := false
+			for _, x := range call.Common().Args {
+				if u, isU := x.(*ssa.UnOp); isU && u.Op == token.MUL && chosen(u.X) && strings.Contains(x.Type().String(), "SnapshotInfoV3") {
+					whole = true
+				}
+				if chosen(x) && strings.Contains(x.Type().String(), "SnapshotInfoV3") {
+					whole = true
+				}
+			}
 			a := namedArg(call, "snapshotIndex")
-			c.check(a != nil && vFieldLoad("SnapshotInfoV3.Index", vResult(nameIs("ls.findBestSnapshotV3"), 0))(a), "R1-segment-contiguity", fnName(fn)+": contiguity starts from the chosen snapshot's index", c.pos(call), "snapshot.Index", "the WAL chain is not anchored at the chosen snapshot")
+			c.check(whole || (a != nil && vFieldLoad("SnapshotInfoV3.Index", chosen)(a)), "R1-segment-contiguity", fnName(fn)+": contiguity starts from the chosen snapshot's index", c.pos(call), "snapshot.Index", "the WAL chain is not anchored at the chosen snapshot")
 			g := namedArg(call, "generation")
-			c.check(g != nil && vFieldLoad("SnapshotInfoV3.Generation", nil)(g), "R1-segment-contiguity", fnName(fn)+": segments come from the snapshot's generation", c.pos(call), "snapshot.Generation", "segments of another generation could be applied")
+			c.check(whole || (g != nil && vFieldLoad("SnapshotInfoV3.Generation", nil)(g)), "R1-segment-contiguity", fnName(fn)+": segments come from the snapshot's generation", c.pos(call), "snapshot.Generation", "segments of another generation could be applied")
 		}
 		for _, call := range callsTo(fn, nameIs("ls.filterWALSegmentsV3")) {
 			a := call.Common().Args
@@ -477,7 +494,11 @@ func runC19(c *Ctx) {
 		}
 		c.floor(rule, n, 1, "appends in filterWALSegmentsV3")
 	}
-	errflowCone(c, func() *EFConfig { cfg := restoreConfig("(*ls.Replica).RestoreV3"); cfg.Rule = "R3-errflow-restorev3-cone"; return cfg }())
+	errflowCone(c, func() *EFConfig {
+		cfg := restoreConfig("(*ls.Replica).RestoreV3")
+		cfg.Rule = "R3-errflow-restorev3-cone"
+		return cfg
+	}())
 	// R4 branch and arbitration
 	if fn := c.fn("R4-format-arbitration", "(*ls.Replica).Restore"); fn != nil {
 		const rule = "R4-format-arbitration"
@@ -645,7 +666,11 @@ func timeFoldRule(c *Ctx, rule string, fn *ssa.Function, varName, cmp string) {
 		c.check(ok, rule, fmt.Sprintf("%s: %s is a running %s: a new value is taken only under %s.IsZero() or x.%s(%s)", fnName(fn), varName, what, varName, cmp, varName), c.pos(at),
 			"assignment edge carries the comparison against the same variable", varName+" is overwritten under a comparison against something else: the result is not the "+what+" over all files (format arbitration and the restore target then use a wrong bound)")
 	}
-	for _, b := range fn.Blocks {
+	var allBlocks []*ssa.BasicBlock
+	for _, g := range withClosures(fn) {
+		allBlocks = append(allBlocks, g.Blocks...)
+	}
+	for _, b := range allBlocks {
 		for _, in := range b.Instrs {
 			switch x := in.(type) {
 			case *ssa.Phi:
@@ -680,7 +705,6 @@ func timeFoldRule(c *Ctx, rule string, fn *ssa.Function, varName, cmp string) {
 	c.floor(rule, n, 1, "assignments of a new value to "+varName+" in "+fnName(fn))
 }
 
-
 // sameFieldLoad: a and b are loads of the same field of the same base object.
 func sameFieldLoad(a, b ssa.Value) bool {
 	ua, ok1 := a.(*ssa.UnOp)
@@ -695,7 +719,6 @@ func sameFieldLoad(a, b ssa.Value) bool {
 	}
 	return fa.X == fb.X || sameValue(fa.X, fb.X)
 }
-
 
 // c19UseMetadata: every listing whose CreatedAt is compared with a requested time asks the
 // backend for accurate (metadata) timestamps: object stores otherwise report upload times.
